@@ -9,7 +9,7 @@ import (
 
 func main() {
 	if len(os.Args) < 4 {
-		fmt.Fprintln(os.Stderr, "usage: gvgen dump|ble|alias|drv|api|reg|enum|blehandler|dbg <repo> <outfile>")
+		fmt.Fprintln(os.Stderr, "usage: gvgen dump|ble|alias|drv|api|reg|enum|blehandler|dbg|flog <repo> <outfile>")
 		os.Exit(2)
 	}
 	switch os.Args[1] {
@@ -31,6 +31,8 @@ func main() {
 		translateBleHandler(os.Args[2], os.Args[3])
 	case "dbg":
 		translateDbg(os.Args[2], os.Args[3])
+	case "flog":
+		translateFlog(os.Args[2], os.Args[3])
 	default:
 		fmt.Fprintln(os.Stderr, "unknown subcommand")
 		os.Exit(2)
